@@ -37,6 +37,22 @@
 (*             received instead.  Clause NoDeadSend (CheckDead): the real    *)
 (*             dispatcher would have blocked there for ever, i.e. the metric *)
 (*             is skipped for every entry that follows.                      *)
+(*                                                                           *)
+(* OVERLAPPING admin operations (kind "ovl": one real route; list "main" =   *)
+(* its destinations, list "rt" = the route's own filter, one entry, id 0):   *)
+(*   acall     operation a (fields as opbegin) is about to be called, in a   *)
+(*             goroutine of its own                                          *)
+(*   aret      operation a has returned: err                                 *)
+(*   aview     all operations called so far have returned: view = the        *)
+(*             destinations, rtview = the route's filter, as Table.Snapshot()*)
+(*             shows them now; snaps as in opdone                            *)
+(* An operation that was recorded as returned before another was recorded as *)
+(* called precedes it; the driver records a call before it makes it and a    *)
+(* return after it got it, so operations that overlapped in the real run are *)
+(* never ordered here.  Clause AdminLinearizable (TableOps.Linearizable):    *)
+(* the view is the result of applying the operations one after the other in  *)
+(* SOME order that respects that precedence, each refused exactly when the   *)
+(* sequential semantics refuse it at its place in that order.                *)
 EXTENDS TableOps, Json, TLC, TLCExt, IOUtils
 
 CONSTANT CheckCells, \* judge the white-box cell comparison (FALSE: only what traffic and the view show)
@@ -44,13 +60,14 @@ CONSTANT CheckCells, \* judge the white-box cell comparison (FALSE: only what tr
 
 TLog == ndJsonDeserialize("trace.ndjson")
 
-VARIABLES l, vers, lop, done, dlo, dcl, bad, kind, pub
-tvars == <<l, vers, lop, done, dlo, dcl, bad, kind, pub>>
+VARIABLES l, vers, lop, done, dlo, dcl, bad, kind, pub, ov
+tvars == <<l, vers, lop, done, dlo, dcl, bad, kind, pub, ov>>
 
 ASSUME TLCSet(1, 0)
 
 Lists == {"main", "rw", "bl", "agg"}
-Empty == [x \in Lists |-> <<>>]
+\* "rt": the filter of the one real route of kinds dest / ovl (exists from the start, accepts everything)
+Empty == [x \in Lists \cup {"rt"} |-> IF x = "rt" THEN <<[id |-> 0, f |-> 0]>> ELSE <<>>]
 NoSnaps == [x \in Lists |-> <<>>]
 Ev == TLog[l]
 Is(e) == l <= Len(TLog) /\ Ev.ev = e /\ l' = l + 1
@@ -59,21 +76,24 @@ Last == vers[Len(vers)]
 First(cl) == IF cl = <<>> THEN "" ELSE cl[1]
 
 TInit == l = 1 /\ vers = <<Empty>> /\ lop = [l |-> "main", op |-> "none"] /\ done = 1
-         /\ dlo = <<>> /\ dcl = <<>> /\ bad = "" /\ kind = "" /\ pub = NoSnaps
+         /\ dlo = <<>> /\ dcl = <<>> /\ bad = "" /\ kind = "" /\ pub = NoSnaps /\ ov = <<>>
 
 THist == Is("hist") /\ vers' = <<Empty>> /\ lop' = [l |-> "main", op |-> "none"] /\ done' = 1
-         /\ dlo' = <<>> /\ dcl' = <<>> /\ bad' = "" /\ kind' = Ev.kind /\ pub' = NoSnaps
+         /\ dlo' = <<>> /\ dcl' = <<>> /\ bad' = "" /\ kind' = Ev.kind /\ pub' = NoSnaps /\ ov' = <<>>
 
 TOpBegin == /\ Is("opbegin")
             /\ vers' = Append(vers, [Last EXCEPT ![Ev.l] = ApplyOp(@, Ev)])
             /\ lop' = Ev
-            /\ UNCHANGED <<done, dlo, dcl, bad, kind, pub>>
+            /\ UNCHANGED <<done, dlo, dcl, bad, kind, pub, ov>>
 
 \* every snapshot published earlier reads now as it read when it was first seen
 OldIntact(sn) == \A x \in Lists : /\ Len(sn[x]) >= Len(pub[x])
                                    /\ \A i \in 1..Len(pub[x]) : sn[x][i] = pub[x][i]
 \* the slice that is published now for the list operated on holds that list
-NewIsList(sn, x) == sn[x] # <<>> /\ sn[x][Len(sn[x])] = Ids(Last[x])
+NewIs(sn, x, lst) == x \in Lists => (sn[x] # <<>> /\ sn[x][Len(sn[x])] = Ids(lst))
+NewIsList(sn, x) == NewIs(sn, x, Last[x])
+Published(sn) == [x \in Lists |-> IF Len(sn[x]) > Len(pub[x])
+                                   THEN pub[x] \o SubSeq(sn[x], Len(pub[x]) + 1, Len(sn[x])) ELSE pub[x]]
 
 TOpDone ==
   /\ Is("opdone")
@@ -85,15 +105,41 @@ TOpDone ==
            IF CheckCells /\ ~OldIntact(sn) THEN "SnapshotImmutable" ELSE "",
            IF CheckCells /\ ~NewIsList(sn, lop.l) THEN "ViewOK" ELSE "" >> IN
      /\ bad' = First(SelectSeq(clauses, LAMBDA x : x # ""))
-     /\ pub' = [x \in Lists |-> IF Len(sn[x]) > Len(pub[x])
-                                 THEN pub[x] \o SubSeq(sn[x], Len(pub[x]) + 1, Len(sn[x])) ELSE pub[x]]
+     /\ pub' = Published(sn)
   /\ done' = Len(vers)
-  /\ UNCHANGED <<vers, lop, dlo, dcl, kind>>
+  /\ UNCHANGED <<vers, lop, dlo, dcl, kind, ov>>
+
+\* ---- overlapping admin operations
+TACall == /\ Is("acall")
+          /\ ov' = Append(ov, [a |-> Ev.a, op |-> Ev, err |-> FALSE, done |-> FALSE,
+                                pred |-> {i \in 1..Len(ov) : ov[i].done}])
+          /\ lop' = Ev
+          /\ UNCHANGED <<vers, done, dlo, dcl, bad, kind, pub>>
+
+TARet == /\ Is("aret") /\ \E i \in 1..Len(ov) : ov[i].a = Ev.a /\ ~ov[i].done
+         /\ LET i == CHOOSE i \in 1..Len(ov) : ov[i].a = Ev.a /\ ~ov[i].done IN
+              ov' = [ov EXCEPT ![i].done = TRUE, ![i].err = Ev.err]
+         /\ UNCHANGED <<vers, lop, done, dlo, dcl, bad, kind, pub>>
+
+TAView ==
+  /\ Is("aview") /\ \A i \in 1..Len(ov) : ov[i].done
+  /\ LET obs == [Last EXCEPT !["main"] = Pairs(Ev.view), !["rt"] = Pairs(Ev.rtview)]
+         sn == Ev.snaps
+         clauses == <<
+           IF ~Linearizable(ov, Last, obs) THEN "AdminLinearizable" ELSE "",
+           IF CheckCells /\ ~OldIntact(sn) THEN "SnapshotImmutable" ELSE "",
+           IF CheckCells /\ ~NewIs(sn, "main", obs["main"]) THEN "ViewOK" ELSE "" >> IN
+     /\ bad' = First(SelectSeq(clauses, LAMBDA x : x # ""))
+     /\ pub' = Published(sn)
+     /\ vers' = Append(vers, obs)
+  /\ done' = Len(vers')
+  /\ ov' = <<>>
+  /\ UNCHANGED <<lop, dlo, dcl, kind>>
 
 TStart == /\ Is("start")
           /\ dlo' = (Ev.d :> done) @@ dlo
           /\ dcl' = (Ev.d :> Ev.c) @@ dcl
-          /\ UNCHANGED <<vers, lop, done, bad, kind, pub>>
+          /\ UNCHANGED <<vers, lop, done, bad, kind, pub, ov>>
 
 MainVers == [x \in 1..Len(vers) |-> vers[x]["main"]]
 
@@ -104,7 +150,7 @@ TEnd ==
      \* routes, blacklist, rewriters, aggregators are one configuration value, loaded once: ONE version
      \* for all of them (fate, name and visited routes together); the destinations of a route are that
      \* route's own configuration, loaded when the route is reached: a version of their own
-     bad' = IF IF kind = "dest"
+     bad' = IF IF kind \in {"dest", "ovl"}
                THEN /\ \E j \in lo..hi : /\ out.fate = FateOf(vers[j], dcl[Ev.d])
                                           /\ (out.rwobs => out.rw = Ids(vers[j]["rw"]))
                     /\ IF out.fate = "routed" THEN \E j \in lo..hi : AtomicAt(out.vis, dcl[Ev.d], lo, hi, mv, j)
@@ -113,9 +159,9 @@ TEnd ==
             THEN (IF CheckDead /\ Ev.dead > 0 THEN "NoDeadSend" ELSE "") ELSE "Atomic"
   /\ dlo' = [x \in (DOMAIN dlo) \ {Ev.d} |-> dlo[x]]
   /\ dcl' = [x \in (DOMAIN dcl) \ {Ev.d} |-> dcl[x]]
-  /\ UNCHANGED <<vers, lop, done, kind, pub>>
+  /\ UNCHANGED <<vers, lop, done, kind, pub, ov>>
 
-TNext == THist \/ TOpBegin \/ TOpDone \/ TStart \/ TEnd
+TNext == THist \/ TOpBegin \/ TOpDone \/ TStart \/ TEnd \/ TACall \/ TARet \/ TAView
 TSpec == TInit /\ [][TNext]_tvars
 
 HighWater == TLCSet(1, IF l - 1 > TLCGet(1) THEN l - 1 ELSE TLCGet(1))
